@@ -337,6 +337,14 @@ def g_hostile_line(r):
     if k == 6: return base + r.choice([' ', '\t', '\xa0'])                  # trailing blank (TAB is not safe)
     return base[:1] + r.choice(['\n', '\r']) + base[1:]
 
+REL_HOSTS = ['h1.example.org', 'h2.example.org', 'irc.other.net']
+def g_related_hostmask(r):
+    """hostmasks that cover / are covered by one another (wide pattern vs specific mask), for the collision
+    rule of setUser: both time orders and both id orders must be refused alike"""
+    h = r.choice(REL_HOSTS)
+    return r.choice(['*!*@*.example.org', '*!*@' + h, 'nick!user@' + h, 'n*!*@' + h, 'nick!*@*', 'Nick!User@' + h.upper(),
+                     'other!u@' + h, '*!user@' + h, '?ick!user@' + h])
+
 def g_hostmask(r, hostile=False):
     sp = '[]\\{}|~^*?'
     def part(lo=1, hi=5):
@@ -390,7 +398,7 @@ def build_users(I, r, hostile):
                 else:
                     u.hashed = False; u.password = val(); tags.add('cleartext-password')
             for _ in range(r.choice([0, 0, 1, 2])):
-                try: u.addHostmask(g_hostmask(r, hostile and r.random() < 0.3))
+                try: u.addHostmask(g_related_hostmask(r) if r.random() < 0.35 else g_hostmask(r, hostile and r.random() < 0.3))
                 except (AssertionError, ValueError): pass
             try:
                 ud.setUser(u); live.append(u.id); tags.add('user')
@@ -411,7 +419,7 @@ def build_users(I, r, hostile):
             elif op == 'rmcap' and len(u.capabilities):
                 u.removeCapability(r.choice(sorted(u.capabilities)))
             elif op == 'hm':
-                h = g_hostmask(r, hostile and r.random() < 0.3)
+                h = g_related_hostmask(r) if r.random() < 0.45 else g_hostmask(r, hostile and r.random() < 0.3)
                 try:
                     u.addHostmask(h); tags.add('hostmask')
                     try: ud.setUser(u)
@@ -923,6 +931,113 @@ def micro_cases(I, r, n, out):
                     lambda o: o[0].split('\t')[0] + '\t' + encL(',', sorted(decL(',', o[0].split('\t')[1])))))
 
 # ---------------------------------------------------------------------------------------------
+# saving over an existing file: a second flush (possibly of an emptied database), and a flush that
+# fails part-way (the saved file must stay the old or become the complete new one)
+# ---------------------------------------------------------------------------------------------
+def _modify_users(I, r, ud):
+    """a few more clean operations; sometimes everything is deleted"""
+    ircdb = I.ircdb
+    if r.random() < 0.3:
+        for i in list(ud.users): ud.delUser(i)
+        return 'emptied'
+    ids = list(ud.users)
+    for _ in range(r.randint(1, 3)):
+        k = r.randint(0, 3)
+        if k == 0 and ids:
+            i = r.choice(ids); ud.delUser(i); ids.remove(i)
+        elif k == 1 and ids:
+            u = ud.users[r.choice(ids)]
+            try: u.addCapability(g_cap(r)); ud.setUser(u)
+            except (AssertionError, ircdb.DuplicateHostmask, ValueError): pass
+        else:
+            u = ud.newUser(); u.name = g_clean_line(r); u.setPassword(g_word(r))
+            try: ud.setUser(u); ids.append(u.id)
+            except (ircdb.DuplicateHostmask, ValueError): ud.delUser(u.id)
+    return 'modified'
+
+class _Boom(OSError):
+    pass
+
+def resave_cases(I, r, n, out):
+    ircdb = I.ircdb
+    import supybot.utils.file as ufile
+    for _ in range(n):
+        which = r.choice(['users', 'users', 'ignores', 'channels', 'networks'])
+        fault = r.random() < 0.5
+        fn = fresh_file(I, 're' + which)
+        if os.path.exists(fn): os.unlink(fn)
+        if which == 'users':
+            ud, _t = build_users(I, r, False)
+            if classes_users(I, snap_users(ud)): continue
+            obj = ud; snap = lambda: sorted(canon_users(snap_users(ud)), key=lambda p: p[0])
+            modify = lambda: _modify_users(I, r, ud)
+        elif which == 'ignores':
+            obj = ircdb.IgnoresDB()
+            for _i in range(r.randint(1, 5)): obj.add(g_hostmask(r), 0)
+            snap = lambda: sorted(obj.hostmasks.items())
+            def modify():
+                if r.random() < 0.4:
+                    obj.hostmasks.clear(); return 'emptied'
+                for h in list(obj.hostmasks)[:r.randint(0, 2)]: obj.remove(h)
+                obj.add(g_hostmask(r), 0); return 'modified'
+        elif which == 'channels':
+            cd, _t = build_chans(I, r, False)
+            if classes_chans(I, snap_chans(cd)): continue
+            obj = cd; snap = lambda: sorted(canon_chans(snap_chans(cd)), key=lambda p: p[0])
+            def modify():
+                if r.random() < 0.3:
+                    cd.channels.clear(); cd.flush() if False else None; return 'emptied'
+                c = cd.getChannel(g_chan_name(r)); c.lobotomized = True; cd.setChannel(g_chan_name(r), c); return 'modified'
+        else:
+            nd, _t = build_nets(I, r, False)
+            if classes_nets(I, snap_nets(nd)): continue
+            obj = nd; snap = lambda: sorted(canon_nets(drop_empty_nets(snap_nets(nd))), key=lambda p: p[0])
+            def modify():
+                if r.random() < 0.3:
+                    nd.networks.clear(); return 'emptied'
+                n_ = nd.getNetwork(g_word(r)); n_.addStsPolicy(g_word(r), 'duration=1,port=2'); nd.setNetwork(g_word(r), n_); return 'modified'
+        obj.filename = fn
+        obj.flush()
+        A = snap()
+        obj.filename = None                 # the modifications below must not save by themselves
+        what = modify()
+        obj.filename = fn
+        B = snap()
+        failed = False
+        if fault:
+            # the k-th write of this flush raises (disk full / I/O error)
+            real_write = ufile.AtomicFile.write
+            k = r.randint(1, 12); cnt = [0]
+            def boom(self, data, real_write=real_write):
+                cnt[0] += 1
+                if cnt[0] == k: raise _Boom(28, 'No space left on device')
+                return real_write(self, data)
+            ufile.AtomicFile.write = boom
+            try:
+                try: obj.flush()
+                except _Boom: failed = True
+            finally:
+                ufile.AtomicFile.write = real_write
+        else:
+            obj.flush()
+        ircdb.IrcUserCreator.u = None; ircdb.IrcChannelCreator.name = None; ircdb.IrcNetworkCreator.name = None
+        I.rec.clear()
+        obj.reload()
+        ircdb.IrcUserCreator.u = None; ircdb.IrcChannelCreator.name = None
+        C = snap()
+        if failed:
+            ok = (C == A or C == B); want = 'the last saved state %r or the new one %r' % (A, B)
+        else:
+            ok = (C == B); want = 'the state that was flushed: %r' % (B,)
+        ok = ok and I.rec.exc is None
+        tags = ('resave', which, what) + (('flush-failed',) if failed else ())
+        c = Case({'db': which, 'op': 'resave', 'saved_first': repr(A), 'then': what, 'fault_at_write': (k if fault else None)},
+                 kind='resave', tags=tags, oracle_ok=ok,
+                 oracle_msg='' if ok else 'after saving over an existing %s file%s the reload gives %r; expected %s'
+                            % (which, ' (flush raised part-way)' if failed else '', C, want))
+        out.append((c, [], lambda o: None))
+
+# ---------------------------------------------------------------------------------------------
 # finding witnesses (KNOWN_FINDINGS.json) — replayed on the real code every run
 # ---------------------------------------------------------------------------------------------
 def witness_users(I, spec):
@@ -1000,6 +1115,7 @@ def explore(ctx, scale, seed_tag=''):
     for _ in range(80 * scale): ignores_case(I, r, True, out)
     ignores_file_cases(I, r, 150 * scale, out)
     micro_cases(I, r, 400 * scale, out)
+    resave_cases(I, r, 120 * scale, out)
     return out
 
 def fill_model(triples):
@@ -1010,6 +1126,8 @@ def fill_model(triples):
         lines += drv
     outs = wire.run_driver(PROPERTY, lines, timeout=1500)
     for (c, drv, f), (a, b) in zip(triples, spans):
+        if not drv:
+            continue
         try:
             c.model = f(outs[a:b])
         except Exception as e:
